@@ -2607,6 +2607,66 @@ def kill_process_tree(process, use_psutil=True):""")),
 
     # Overload _start_thread to correctly call our custom _feed
     def _start_thread(self):""")),
+    # ------------------------------------------------------------- round 7: R-INIT-CHAIN, R-RESIZE-DRAIN, R-RELAUNCH reap clause
+    M("initchain-args-only-when-nonempty", ["C18"], ["R-INIT-CHAIN"],
+      ("loky/initializers.py", """            filtered_initializers.append(initializer)
+            filtered_initargs.append(initargs)""", """            filtered_initializers.append(initializer)
+            if initargs:
+                filtered_initargs.append(initargs)""")),
+    M("initchain-single-other-index", ["C18"], ["R-INIT-CHAIN"],
+      ("loky/initializers.py", """        return filtered_initializers[0], filtered_initargs[0]""", """        return filtered_initializers[0], filtered_initargs[-1:]""")),
+    M("initchain-args-outside-filter", ["C18"], ["R-INIT-CHAIN"],
+      ("loky/initializers.py", """        if initializer is not None:
+            filtered_initializers.append(initializer)
+            filtered_initargs.append(initargs)""", """        if initializer is not None:
+            filtered_initializers.append(initializer)
+        filtered_initargs.append(initargs)""")),
+    M("initchain-provider-args-not-tuple", ["C18"], ["R-INIT-CHAIN"],
+      ("loky/initializers.py", """            return _viztracer_init, (tracer.init_kwargs,)""", """            return _viztracer_init, tracer.init_kwargs""")),
+    M("initchain-compound-zip-reversed", ["C18"], ["R-INIT-CHAIN"],
+      ("loky/initializers.py", """        for initializer, args in zip(self._initializers, chained_args):""", """        for initializer, args in zip(self._initializers, reversed(chained_args)):""")),
+    M("initchain-compound-swallows", ["C18"], ["R-INIT-CHAIN"],
+      ("loky/initializers.py", """        for initializer, args in zip(self._initializers, chained_args):
+            initializer(*args)""", """        for initializer, args in zip(self._initializers, chained_args):
+            try:
+                initializer(*args)
+            except Exception:
+                pass""")),
+    M("initchain-user-pair-swapped", ["C18"], ["R-INIT-CHAIN"],
+      ("loky/initializers.py", """            (initializer, initargs),
+""", """            (initargs, initializer),
+""")),
+    M("initchain-filter-on-args", ["C18"], ["R-INIT-CHAIN"],
+      ("loky/initializers.py", """        if initializer is not None:
+            filtered_initializers""", """        if initializer is not None and initargs is not None:
+            filtered_initializers""")),
+    M("drain-cancelled-item-stays-pending", ["C09", "C10"], ["R-ONCE"],
+      (PE, """                    del self.pending_work_items[work_id]
+                    continue""", """                    continue""")),
+    M("relaunch-warn-before-reap", ["C12", "C13", "C20"], ["R-RELAUNCH"],
+      (RT, """                os.close(self._fd)
+                if os.name == "posix":""", """                os.close(self._fd)
+                self._fd = None
+                warnings.warn("resource_tracker: process died unexpectedly, relaunching.")
+                if os.name == "posix":""")),
+    M("relaunch-warn-before-pid-reset", ["C12", "C20"], ["R-RELAUNCH"],
+      (RT, """                self._fd = None
+                self._pid = None
+
+                warnings.warn(
+                    "resource_tracker: process died unexpectedly, "
+                    "relaunching.  Some folders/sempahores might "
+                    "leak."
+                )
+""", """                self._fd = None
+
+                warnings.warn(
+                    "resource_tracker: process died unexpectedly, "
+                    "relaunching.  Some folders/sempahores might "
+                    "leak."
+                )
+                self._pid = None
+""")),
 ]
 
 
@@ -2872,4 +2932,11 @@ BENIGN = [
         self.future = future
         self.func = fn"""),
       (PE, """                            work_item.fn,""", """                            work_item.func,""")),
+    B("benign-initchain-guard-clause", ["C18"],
+      ("loky/initializers.py", """        if initializer is not None:
+            filtered_initializers.append(initializer)
+            filtered_initargs.append(initargs)""", """        if initializer is None:
+            continue
+        filtered_initializers.append(initializer)
+        filtered_initargs.append(initargs)""")),
 ]
